@@ -454,7 +454,7 @@ package scipipe
 //@   ensures every-output-carries-the-record[C10]: exists a *AuditInfo :: recordOf(t, a, startTime, finishTime) && outFilesRecorded(t, a) && (forall o string :: o in t.OutIPs ==> t.OutIPs[o].auditInfo == a)
 //@   ensures upstream-records-linked-by-path[C10,C11]: old(inputsDistinct(t)) ==> exists a *AuditInfo :: recordOf(t, a, startTime, finishTime) && (forall o string :: o in t.OutIPs ==> t.OutIPs[o].auditInfo == a) && ((exists o string :: o in t.OutIPs) ==> upstreamLinked(t, a))
 //@   ensures audit-file-written-for-every-output[C10]: forall o string :: o in t.OutIPs ==> effCreated[t.OutIPs[o].path + ".audit.json"]
-//@   ensures upstream-tags-present-downstream[C10]: (exists o string :: o in t.OutIPs) ==> exists a *AuditInfo :: (forall o string :: o in t.OutIPs ==> t.OutIPs[o].auditInfo == a) && (forall i string :: i in t.InIPs && hasRec(t, i) ==> tagsFrom(t, a, i))
+//@   ensures upstream-tags-present-downstream[C10]: old(inputsDistinct(t)) && (exists o string :: o in t.OutIPs) ==> exists a *AuditInfo :: (forall o string :: o in t.OutIPs ==> t.OutIPs[o].auditInfo == a) && (forall i string :: i in t.InIPs && hasRec(t, i) ==> tagsFrom(t, a, i))
 //@   loop 0 invariant in-tags-kept: inTagsKept(t)
 //@   loop 0 invariant in-tags-apart: inTagsApart(t, auditInfo)
 //@   loop 0 invariant rec: recordOf(t, auditInfo, startTime, finishTime) && freshRecord(auditInfo)
@@ -471,26 +471,29 @@ package scipipe
 //@   loop 1 invariant linked-plain: old(inputsDistinct(t)) ==> forall i string :: $visited0[i] && !isJoin(t, i) ==> linkedPlain(t, auditInfo, i)
 //@   loop 1 invariant linked-join: old(inputsDistinct(t)) ==> forall i string, j int :: $visited0[i] && i != inpName && isJoin(t, i) && 0 <= j && j < len(t.subStreamIPs[i]) ==> linkedMember(t, auditInfo, i, j)
 //@   loop 1 invariant linked-cur: old(inputsDistinct(t)) ==> forall j int :: 0 <= j && j < $i ==> linkedMember(t, auditInfo, inpName, j)
+//@   loop 2 invariant distinct: old(inputsDistinct(t)) ==> inputsDistinct(t)
 //@   loop 2 invariant in-tags-kept: inTagsKept(t)
 //@   loop 2 invariant in-tags-apart: inTagsApart(t, auditInfo)
 //@   loop 2 invariant rec: recordOf(t, auditInfo, startTime, finishTime) && freshRecord(auditInfo)
 //@   loop 2 invariant linked: old(inputsDistinct(t)) ==> upstreamLinked(t, auditInfo)
 //@   loop 2 invariant vis: forall n string :: $visited[n] ==> n in t.OutIPs
 //@   loop 2 invariant outfiles: (forall n string :: n in auditInfo.OutFiles <==> $visited[n]) && (forall n string :: $visited[n] ==> auditInfo.OutFiles[n] == t.OutIPs[n].path)
-//@   loop 3 invariant in-tags-kept: inTagsKept(t)
+//@   loop 3 invariant distinct: old(inputsDistinct(t)) ==> inputsDistinct(t)
+//@   loop 3 invariant in-tags-kept: old(inputsDistinct(t)) ==> inTagsKept(t)
 //@   loop 3 invariant in-tags-apart: inTagsApart(t, auditInfo)
-//@   loop 3 invariant tags-merged: (exists o string :: $visited[o]) ==> forall i string :: i in t.InIPs && hasRec(t, i) ==> tagsFrom(t, auditInfo, i)
+//@   loop 3 invariant tags-merged: old(inputsDistinct(t)) && (exists o string :: $visited[o]) ==> forall i string :: i in t.InIPs && hasRec(t, i) ==> tagsFrom(t, auditInfo, i)
 //@   loop 3 invariant rec: recordOf(t, auditInfo, startTime, finishTime) && freshRecord(auditInfo) && outFilesRecorded(t, auditInfo)
 //@   loop 3 invariant linked: old(inputsDistinct(t)) ==> upstreamLinked(t, auditInfo)
 //@   loop 3 invariant vis: forall k string :: $visited[k] ==> k in t.OutIPs
 //@   loop 3 invariant attached: forall k string :: $visited[k] ==> t.OutIPs[k].auditInfo == auditInfo && effCreated[t.OutIPs[k].path + ".audit.json"]
 //@   loop 3 invariant only-audit-files: forall p string :: effCreated[p] && !old(effCreated)[p] ==> auditFileOf(t, p)
 //@   loop 3 invariant grows: forall p string :: old(effCreated)[p] ==> effCreated[p]
-//@   loop 4 invariant in-tags-kept: inTagsKept(t)
+//@   loop 4 invariant distinct: old(inputsDistinct(t)) ==> inputsDistinct(t)
+//@   loop 4 invariant in-tags-kept: old(inputsDistinct(t)) ==> inTagsKept(t)
 //@   loop 4 invariant in-tags-apart: inTagsApart(t, auditInfo)
 //@   loop 4 invariant vis: forall i string :: $visited[i] ==> i in t.InIPs
-//@   loop 4 invariant tags-so-far: forall i string :: $visited[i] && hasRec(t, i) ==> tagsFrom(t, auditInfo, i)
-//@   loop 4 invariant tags-before: (exists o string :: $visited3[o] && t.OutIPs[o] != oip) ==> forall i string :: i in t.InIPs && hasRec(t, i) ==> tagsFrom(t, auditInfo, i)
+//@   loop 4 invariant tags-so-far: old(inputsDistinct(t)) ==> forall i string :: $visited[i] && hasRec(t, i) ==> tagsFrom(t, auditInfo, i)
+//@   loop 4 invariant tags-before: old(inputsDistinct(t)) && (exists o string :: $visited3[o] && t.OutIPs[o] != oip) ==> forall i string :: i in t.InIPs && hasRec(t, i) ==> tagsFrom(t, auditInfo, i)
 //@   loop 4 invariant rec: recordOf(t, auditInfo, startTime, finishTime) && freshRecord(auditInfo) && outFilesRecorded(t, auditInfo) && oip.auditInfo == auditInfo && oip != nil
 //@   loop 4 invariant linked: old(inputsDistinct(t)) ==> upstreamLinked(t, auditInfo)
 //@   loop 4 invariant attached: forall k string :: $visited3[k] && t.OutIPs[k] != oip ==> t.OutIPs[k].auditInfo == auditInfo && effCreated[t.OutIPs[k].path + ".audit.json"]
